@@ -365,9 +365,12 @@ func init() {
 	}
 	checkDefs["C14"] = &CheckDef{
 		Property: "C14",
-		Jobs:     detJobs,
-		Bounds:   compressBounds("C14"),
-		Outside:  append([]string{"frame level: independence from concurrency level and goroutine scheduling (no goroutines in the executor); only the sequential clause (same input split differently across Write calls: one Write, two Writes at two split points, byte by byte) is checked at frame level"}, compressOutside...),
-		Assumptions: compressAssumptions,
+		Jobs:     func(tier string) []*Job { return append(detJobs(tier), concWriterJobs(tier)...) },
+		Bounds: func(tier string) []string {
+			return append(compressBounds("C14")(tier), "frame level, concurrency: for ConcurrencyOption 2, 3 (thorough 4) and 13 call sequences of Write/Flush/ReadFrom/Close/Reset on 20- and 10-byte chunks (and one 64 KiB + 20 input), under every schedule with at most 2 (thorough 3) delays, the emitted bytes equal those of the same calls on a sequential Writer")
+		},
+		Outside:  append([]string{"frame level: schedules beyond the delay bound; symbolic content under concurrency (content is concrete there); the sequential clause covers one Write, two Writes at two split points, byte by byte"}, compressOutside...),
+		Assumptions: append([]string{concAssumptions[0], concAssumptions[1]}, compressAssumptions...),
+		Filter:      func(id string) bool { return !hasPrefix(id, "conc-") && !hasPrefix(id, "cfault-") },
 	}
 }
